@@ -18,31 +18,31 @@ Inductive c14case :=
 (** a media-segment request with traffic_ configured (L1): [pattern] is the value of the
     parameter, [basePlain]/[baseStripped] the answers without the parameter to the path as it is
     and to the path without its second element *)
-| CTraffic (id : Z) (pattern : list Z) (segPart : string) (now basePlain baseStripped : Z)
+| CTraffic (id : Z) (fxl : bool) (pattern : list Z) (segPart : string) (now basePlain baseStripped : Z)
            (obs odelay : Z) (opanic : string)
 (** CreateLossItvls / CycleDurS / StateAt through the exported API (L2, no hook):
     oerr, the intervals as (dur, state), the cycle, the states at [secs] (-1 = panic) *)
-| CLoss (id : Z) (pattern : list Z) (oerr : bool) (oitvls : list (Z * Z)) (ocycle : Z)
+| CLoss (id : Z) (fxl : bool) (pattern : list Z) (oerr : bool) (oitvls : list (Z * Z)) (ocycle : Z)
         (secs : list Z) (ostates : list Z)
 (** the BaseURL elements of the MPD (status 400 and none for an invalid parameter) *)
-| CBase (id : Z) (pattern : list Z) (ostatus : Z) (obase : list string).
+| CBase (id : Z) (fxl : bool) (pattern : list Z) (ostatus : Z) (obase : list string).
 
 Definition c_id (c : c14case) : Z :=
   match c with
   | CStatus id _ _ _ _ _ _ _ _ _ _ _ _ _ => id
   | CCalc id _ _ _ _ _ _ _ _ _ _ _ => id
   | CSubs id _ _ _ _ _ => id
-  | CTraffic id _ _ _ _ _ _ _ _ => id
-  | CLoss id _ _ _ _ _ _ => id
-  | CBase id _ _ _ => id
+  | CTraffic id _ _ _ _ _ _ _ _ _ => id
+  | CLoss id _ _ _ _ _ _ _ => id
+  | CBase id _ _ _ _ => id
   end.
 
 Definition ansView (a : answer) : Z * string :=
   match a with AStatus s => (s, EmptyString) | APanic s => (0, s) end.
 
-Definition trafficView (pattern : list Z) (segPart : string) (now basePlain baseStripped : Z)
+Definition trafficView (fxl : bool) (pattern : list Z) (segPart : string) (now basePlain baseStripped : Z)
   : Z * Z * string :=
-  match createAllLossItvls pattern with
+  match parseAllLoss fxl pattern with
   | Err _ => (400, 0, EmptyString)
   | Panic s => (0, 0, s)
   | Ok traffic =>
@@ -53,8 +53,8 @@ Definition trafficView (pattern : list Z) (segPart : string) (now basePlain base
     end
   end.
 
-Definition lossView (pattern : list Z) (secs : list Z) : bool * list (Z * Z) * Z * list Z :=
-  match createLossItvls pattern with
+Definition lossView (fxl : bool) (pattern : list Z) (secs : list Z) : bool * list (Z * Z) * Z * list Z :=
+  match parseLoss fxl pattern with
   | Ok l => (false, map (fun i => (l_dur i, lstateZ (l_state i))) l, cycleDurS l,
              map (fun s => match stateAt l s with Ok st => lstateZ st | _ => -1 end) secs)
   | _ => (true, [], 0, [])
@@ -83,14 +83,14 @@ Definition case_ok (c : c14case) : bool :=
     (s =? obs) && String.eqb p opanic
   | CSubs _ cfg codes now base obs =>
     let '(s, p) := ansView (subsAnswerUnrepaired cfg codes now base) in (s =? obs) && String.eqb p EmptyString
-  | CTraffic _ pattern segPart now bp bs obs odelay opanic =>
-    let '(s, d, p) := trafficView pattern segPart now bp bs in
+  | CTraffic _ fxl pattern segPart now bp bs obs odelay opanic =>
+    let '(s, d, p) := trafficView fxl pattern segPart now bp bs in
     (s =? obs) && (d =? odelay) && String.eqb p opanic
-  | CLoss _ pattern oerr oitvls ocycle secs ostates =>
-    let '(e, l, cy, sts) := lossView pattern secs in
+  | CLoss _ fxl pattern oerr oitvls ocycle secs ostates =>
+    let '(e, l, cy, sts) := lossView fxl pattern secs in
     Bool.eqb e oerr && list_eqb pairZ_eqb l oitvls && (cy =? ocycle) && list_eqb Z.eqb sts ostates
-  | CBase _ pattern ostatus obase =>
-    match createAllLossItvls pattern with
+  | CBase _ fxl pattern ostatus obase =>
+    match parseAllLoss fxl pattern with
     | Ok traffic => (ostatus =? 200) && list_eqb String.eqb (mpdBaseURLs traffic) obase
     | Err _ => (ostatus =? 400) && list_eqb String.eqb [] obase
     | Panic _ => false
@@ -114,8 +114,8 @@ Definition model_view (c : c14case) : mview :=
     let '(s, p) := calcView fx r loopMS cfg codes repID mode segID now in VAns s p
   | CSubs _ cfg codes now base _ =>
     let '(s, p) := ansView (subsAnswerUnrepaired cfg codes now base) in VAns s p
-  | CTraffic _ pattern segPart now bp bs _ _ _ =>
-    let '(s, d, p) := trafficView pattern segPart now bp bs in VTraffic s d p
-  | CLoss _ pattern _ _ _ secs _ => VLoss (lossView pattern secs)
-  | CBase _ pattern _ _ => VBase (do t <- createAllLossItvls pattern; Ok (mpdBaseURLs t))
+  | CTraffic _ fxl pattern segPart now bp bs _ _ _ =>
+    let '(s, d, p) := trafficView fxl pattern segPart now bp bs in VTraffic s d p
+  | CLoss _ fxl pattern _ _ _ secs _ => VLoss (lossView fxl pattern secs)
+  | CBase _ fxl pattern _ _ => VBase (do t <- parseAllLoss fxl pattern; Ok (mpdBaseURLs t))
   end.
